@@ -59,6 +59,9 @@ var c07Sets = [][]c07Route{
 	// prefix, a duplicate, a second match-all): the accepted routes stay as they were
 	{{Method: "GET", Text: "/a/{x}"}, {Method: "GET", Text: "/a/{x}/{y}/{y}", Rejected: true}, {Method: "GET", Text: "/a/{x}/z"}, {Method: "GET", Text: "/a/{x}/z", Rejected: true}, {Method: "GET", Text: "/{m: **}"}},
 	{{Method: "GET", Text: "/a/b/z"}, {Method: "GET", Text: "/a/?b"}, {Method: "GET", Text: "/a", Rejected: true}, {Method: "GET", Text: "/a/{m: **}/{n: **}/z", Rejected: true}, {Method: "GET", Text: "/a/{m: **}/z"}},
+	// one placeholder between literals whose ends overlap (the prefix ends as the suffix begins): a segment
+	// shorter than both together carries the prefix and the suffix and still is no match
+	{{Method: "GET", Text: "/az{x}za"}, {Method: "GET", Text: "/a/a{y}a"}, {Method: "GET", Text: "/z/aa{x}aa/?z"}, {Method: "GET", Text: "/a.{x}.a/z"}},
 	// capture limits at the edges of their range (non-positive means unlimited)
 	{{Method: "GET", Text: "/a/{m: **, capture: -1}/z"}, {Method: "GET", Text: "/{n: **, capture: 0}"}},
 	{{Method: "GET", Text: "/a/{m: **, capture: 9223372036854775807}/z"}, {Method: "GET", Text: "/z/{n: **, capture: -9223372036854775808}"}},
@@ -308,6 +311,7 @@ func c07Paths(thorough bool) []string {
 	out = append(out, "/A", "/A/b", "/a/B", "/A/", "/Z/a") // matching is case-sensitive
 	out = append(out, "/a/a-a/z", "/a/2-za/z", "/a/a-z", "/z/z", "/a/z/z")
 	out = append(out, `/a)(\Qb`, "/azb", "/ab", "/a)(b", `/az\Eb`, `/a\Qz\Eb`) // texts around the quoted expressions
+	out = append(out, "/aza", "/azza", "/azaza", "/azzza", "/a/a", "/a/aa", "/a/aaa", "/z/aaa", "/z/aaaa", "/z/aaaaa", "/z/aaa/z", "/a.a/z", "/a..a/z", "/a.z.a/z") // overlapping literals
 	out = append(out, "/"+strings.Repeat("a/", 32*1024), strings.Repeat("/", 70000), "/a/"+strings.Repeat("z", 65536))
 	return out
 }
